@@ -74,10 +74,16 @@ Definition check_type (c : tcase) : bool :=
 (* ---- exhaustive blocks: all sequences start .. start+count-1 of length n over `alphabet` (index =
    base-8 numeral, most significant digit first) with contexts pre/post (0 = none, k = alphabet[k-1]);
    observed actions packed 20 per word, 3 bits each, first action in the lowest bits *)
+(* a 3-bit value as N, without the 63-step to_Z loop *)
+Definition small_of_int (x : int) : N :=
+  if Uint63.eqb x 0 then 0 else if Uint63.eqb x 1 then 1 else if Uint63.eqb x 2 then 2
+  else if Uint63.eqb x 3 then 3 else if Uint63.eqb x 4 then 4 else if Uint63.eqb x 5 then 5
+  else if Uint63.eqb x 6 then 6 else 7.
+
 Fixpoint unpack_word (k : nat) (w : int) : list N :=
   match k with
   | O => []
-  | S k' => Z.to_N (Uint63.to_Z (Uint63.land w 7)) :: unpack_word k' (Uint63.lsr w 3)
+  | S k' => small_of_int (Uint63.land w 7) :: unpack_word k' (Uint63.lsr w 3)
   end.
 
 Fixpoint take_stream (n : nat) (buf : list N) (ws : list int) : list N * (list N * list int) :=
@@ -104,6 +110,21 @@ Fixpoint digits (n : nat) (idx : N) (acc : list jt) : list jt :=
   | S k => digits k (idx / 8) (nth (N.to_nat (idx mod 8)) alphabet T :: acc)
   end.
 
+(* the same enumeration as an odometer: least significant digit first *)
+Fixpoint lsd_digits (n : nat) (idx : N) : list N :=
+  match n with
+  | O => []
+  | S k => idx mod 8 :: lsd_digits k (idx / 8)
+  end.
+Fixpoint odo_next (l : list N) : list N :=
+  match l with
+  | [] => []
+  | d :: r => if d =? 7 then 0 :: odo_next r else (d + 1) :: r
+  end.
+Definition jt_of_digit (d : N) : jt :=
+  match d with 0 => U | 1 => L | 2 => R | 3 => D | 4 => C | 5 => T | 6 => A | _ => DR end.
+Definition odo_seq (l : list N) : list jt := rev_append (map jt_of_digit l) [].
+
 (* context index: 0 = none, 1..8 = one character, 9..72 = two characters (logical order) *)
 Definition ctx_of (k : N) : list jt :=
   if k =? 0 then []
@@ -111,28 +132,38 @@ Definition ctx_of (k : N) : list jt :=
   else [nth (N.to_nat ((k - 9) / 8)) alphabet T; nth (N.to_nat ((k - 9) mod 8)) alphabet T].
 
 Definition blockT := (N * N * N * N * N * list int)%type.
-Definition bstate := (N * list N * list int * nat * list N)%type.
+(* index, odometer, unpacked buffer, remaining words, remaining failure budget, failures found.
+   A failure is recorded as 2*index (first predicate) or 2*index+1 (second predicate). *)
+Definition bstate := (N * list N * list N * list int * nat * list N)%type.
 
-Definition bstep (chk : list jt -> list N -> bool) (n : nat) (s : bstate) : bstate :=
-  let '(idx, buf, ws, lim, acc) := s in
+Definition bstep (chk1 chk2 : list jt -> list N -> bool) (n : nat) (s : bstate) : bstate :=
+  let '(idx, odo, buf, ws, lim, acc) := s in
   match lim with
   | O => s
   | S lim' =>
       let '(obs, (buf', ws')) := take_stream n buf ws in
-      if chk (digits n idx []) obs then (idx + 1, buf', ws', lim, acc)
-      else (idx + 1, buf', ws', lim', idx :: acc)
+      let t := odo_seq odo in
+      let ok1 := chk1 t obs in
+      let ok2 := chk2 t obs in
+      let acc1 := if ok1 then acc else (2 * idx) :: acc in
+      let acc2 := if ok2 then acc1 else (2 * idx + 1) :: acc1 in
+      (idx + 1, odo_next odo, buf', ws', (if ok1 && ok2 then lim else lim'), acc2)
   end.
 
-Definition check_block (chk : list jt -> list jt -> list jt -> list N -> bool) (b : blockT) : list N :=
+Definition check_block (chk1 chk2 : list jt -> list jt -> list jt -> list N -> bool) (b : blockT) : list N :=
   let '(n, pre, post, start, count, ws) := b in
-  let '(_, _, _, _, acc) := N.iter count (bstep (fun t o => chk (ctx_of pre) t (ctx_of post) o) (N.to_nat n)) (start, [], ws, 5%nat, []) in
+  let p := ctx_of pre in
+  let q := ctx_of post in
+  let '(_, _, _, _, _, acc) :=
+    N.iter count (bstep (fun t o => chk1 p t q o) (fun t o => chk2 p t q o) (N.to_nat n))
+           (start, lsd_digits (N.to_nat n) start, [], ws, 5%nat, []) in
   rev acc.
 
-(* answer: flat list [block number; sequence index; block number; sequence index; ...] *)
-Fixpoint check_blocks (chk : list jt -> list jt -> list jt -> list N -> bool) (bs : list blockT) (i : N) : list N :=
+(* answer: flat list [block number; 2*index+which; block number; 2*index+which; ...] *)
+Fixpoint check_blocks (chk1 chk2 : list jt -> list jt -> list jt -> list N -> bool) (bs : list blockT) (i : N) : list N :=
   match bs with
   | [] => []
-  | b :: r => flat_map (fun idx => [i; idx]) (check_block chk b) ++ check_blocks chk r (i + 1)
+  | b :: r => flat_map (fun x => [i; x]) (check_block chk1 chk2 b) ++ check_blocks chk1 chk2 r (i + 1)
   end.
 
 Definition blk_model (pre text post : list jt) (obs : list N) : bool :=
